@@ -7,7 +7,7 @@
 //! stream at the packet boundary gives the same results, a data set for an id that was
 //! not defined is not decoded.
 use crate::common::*;
-use crate::d9::unsigned_kernel_model;
+use crate::km::unsigned_kernel_model;
 use netflow_parser::variable_versions::data_number::{DataNumber, FieldValue};
 use netflow_parser::variable_versions::{ipfix, v9};
 use netflow_parser::{NetflowPacket, NetflowParser};
